@@ -1,1 +1,2 @@
+pub mod pipe;
 pub mod worker;
